@@ -16,7 +16,8 @@ Theorem C10_source_facts :
   module_props_popped_and_badvalue_collected = true /\ writedict_only_with_write_method = true /\
   needscfg_and_uninit_marker = true /\ writes_before_first_polls = true /\ write_init_pops_each_entry_once = true /\
   minmax_check_present = true /\ mandatory_check_present = true /\ numeric_datatypes_check_properties = true /\
-  array_check_ignores_members = true /\ name_map_filled_before_cfg = true /\ registers_only_created = true /\
+  array_check_descends_into_members = true /\ name_map_filled_after_cfg = true /\ all_modules_initialised = true /\
+  registers_only_created = true /\
   exit_on_errors = true /\ merge_first_wins_and_tags = true /\ mod_wraps_bare_values = true /\
   checked_value_props = [k_constant; k_default; k_value] /\
   map mp_name base_mprops = map s_ ["export"; "group"; "description"; "meaning"; "visibility"; "implementation";
@@ -64,13 +65,13 @@ Proof. intros C c i p d x y _ _ _ Hwf Hv. eapply validate_sound; [exact Hwf|left
 
 (* start-up: the poll thread first hands writeDict to the write methods, then initialReads, then the first polls; every
    write method receives its configured (validated) value exactly once - or, when the value does not validate, the module
-   is not exported or there is no driver method, never (see the refuted statements below) *)
+   there is no driver method, never (see the refuted statement below); this holds for unexported modules as well *)
 Theorem C10_written_once_before_poll : forall C c i n,
   mod_init C c = Created i -> NoDup (map p_name (active (c_params C))) ->
-  (mexport (i_mvals i) && has_thread i = true ->
+  (has_thread i = true ->
    exists ws rs, startup i = ws ++ EvInit :: rs /\ forallb is_write ws = true /\ forallb is_read rs = true) /\
   writes_for n (startup i) =
-    (if mexport (i_mvals i) && has_thread i
+    (if has_thread i
      then match assoc_str n (i_write i) with Some v => handed (i_params i) n v | None => [] end
      else []) /\
   (List.length (writes_for n (startup i)) <= 1)%nat.
@@ -78,7 +79,7 @@ Proof.
   intros C c i n H ND. pose proof (created_write_nodup _ _ _ H ND) as NW. split; [|split].
   - intros Ht. destruct (startup_shape i Ht) as [ws [rs [A [B [D _]]]]]. exists ws, rs. auto.
   - apply startup_writes. exact NW.
-  - rewrite (startup_writes i n NW). destruct (mexport (i_mvals i) && has_thread i); [|simpl; auto].
+  - rewrite (startup_writes i n NW). destruct (has_thread i); [|simpl; auto].
     destruct (assoc_str n (i_write i)); [|simpl; auto]. unfold handed.
     destruct (find_param n (i_params i)); [|simpl; auto]. destruct (p_dt p0); [|simpl; auto].
     destruct (valid d p); [|simpl; auto]. destruct (p_wfunc p0); simpl; auto.
@@ -105,11 +106,19 @@ Theorem C10_missing_mandatory_description_rejected : forall C c i p,
   assoc_str (p_name p) c = None -> mod_init C c <> Created i.
 Proof. intros; eapply missing_description_rejected; eassumption. Qed.
 
-(* full statement: no parameter of a created module has min > max anywhere in its datatype.  It fails for the element type
-   of an array (refuted below); proved for a numeric datatype used directly: *)
-Theorem C10_inverted_limits_rejected_except_array_member : forall C c i p d,
-  mod_init C c = Created i -> In p (i_params i) -> p_iscmd p = false -> p_dt p = Some d -> leaf_inverted d = false.
-Proof. intros; eapply no_inverted_leaf; eassumption. Qed.
+(* no parameter of a created module has min > max in its datatype, also not on the element type of an array
+   (formerly ..._except_array_member; the exception went away with the repair of ArrayOf.checkProperties) *)
+Theorem C10_inverted_limits_rejected : forall C c i p d,
+  mod_init C c = Created i -> In p (i_params i) -> p_iscmd p = false -> p_dt p = Some d -> dt_inverted d = false.
+Proof. intros; eapply no_inverted_limits; eassumption. Qed.
+
+(* the export configuration is applied as a whole: requests are resolved under exactly the export names the final
+   accessibles carry (the names shown in the description), every name at most once; a hidden accessible has no entry *)
+Theorem C10_export_names_applied : forall C c i,
+  mod_init C c = Created i ->
+  NoDup (map fst (i_names i)) /\
+  forall s n, In (s, n) (i_names i) <-> exists p', In p' (i_params i) /\ p_name p' = n /\ p_export p' = XName s.
+Proof. intros; eapply created_names; eassumption. Qed.
 
 (* ---- node level: only created modules are registered, one failing module makes the node refuse to start, every failing
    module is named in the errors *)
@@ -139,17 +148,9 @@ Theorem C10_merge_first_file_wins : forall fs acc res,
                      exists f s, In f fs /\ snd e = tag_origin (f_eid f) s) extra.
 Proof. intros; eapply load_rest_prefix; eassumption. Qed.
 
-(* ---- where the pinned code violates the property *)
+(* ---- where the code still violates the property (open finding C10/out-of-range-value-not-written) *)
 Theorem C10_refuted_out_of_range_value_not_written : exists C c i, mod_init C c = Created i /\ never_handed i = true.
 Proof. exact refuted_out_of_range_value_not_written. Qed.
-Theorem C10_refuted_unexported_module_values_not_written :
-  exists C c i, mod_init C c = Created i /\ unexported_not_started i = true.
-Proof. exact refuted_unexported_module_values_not_written. Qed.
-Theorem C10_refuted_inverted_limits_array_member : exists C c i, mod_init C c = Created i /\ has_inverted_array i = true.
-Proof. exact refuted_inverted_limits_array_member. Qed.
-Theorem C10_refuted_export_override_name_map_stale : exists C c i, mod_init C c = Created i /\ name_map_stale i = true.
-Proof. exact refuted_export_override_name_map_stale. Qed.
-
 (* non-vacuity: a configuration that is applied (value converted, limits and unit overridden, write registered and handed
    over before the first poll) *)
 Definition demo_cfg : cfg :=
@@ -176,10 +177,8 @@ Print Assumptions C10_unknown_name_rejected.
 Print Assumptions C10_wrong_type_value_rejected.
 Print Assumptions C10_missing_required_value_rejected.
 Print Assumptions C10_missing_mandatory_description_rejected.
-Print Assumptions C10_inverted_limits_rejected_except_array_member.
+Print Assumptions C10_inverted_limits_rejected.
+Print Assumptions C10_export_names_applied.
 Print Assumptions C10_node_rejects_whole.
 Print Assumptions C10_merge_first_file_wins.
 Print Assumptions C10_refuted_out_of_range_value_not_written.
-Print Assumptions C10_refuted_unexported_module_values_not_written.
-Print Assumptions C10_refuted_inverted_limits_array_member.
-Print Assumptions C10_refuted_export_override_name_map_stale.
